@@ -1,6 +1,8 @@
 (* C06 - Wrap: no line exceeds the width; breaking is greedy and stable. Proved so far (about
-   the model): widths below 2 act as 2; Wrap is total; and no line of the wrapped block is
-   wider than the clamped width whenever the space-collapsed text consists of safe clusters
+   the model): widths below 2 act as 2; Wrap is total; no line of the wrapped block is wider
+   than the clamped width for every text whatsoever (C06_width_every_text, by the
+   subadditivity of segmentation, C06_clusters_subadditive); the exact form of that bound
+   whenever the space-collapsed text consists of safe clusters
    (none starts with an extending character or ends in a Prepend character - the
    degenerate-seam class D11 is exactly what this excludes); and, under the same condition,
    C06_structure: every line is its pieces (words or hyphen-ended chunks of an over-long
@@ -15,7 +17,7 @@
    check_C06 and the wrap-twice cases. *)
 From Coq Require Import List Bool ZArith Lia.
 Import ListNotations.
-From Rosed Require Import Base.Res Base.ListX Gem.Segment Gem.GString Model.Tb Model.Manip Model.Table Base.Str Proofs.SeamP Proofs.C13P Proofs.C06P Proofs.C06Q Proofs.C06R Proofs.C06S.
+From Rosed Require Import Base.Res Base.ListX Gem.Segment Gem.GString Model.Tb Model.Manip Model.Table Base.Str Proofs.SeamP Proofs.C13P Proofs.C06P Proofs.C06Q Proofs.C06R Proofs.C06S Proofs.SubaddP Proofs.C06T.
 Open Scope Z_scope.
 
 Theorem C06_clamp : forall (C : Classifier) text w sep, wrap text w sep = wrap text (Z.max w 2) sep.
@@ -70,3 +72,19 @@ Theorem C06_wrap_again : forall (C : Classifier) (K : ClassifierOk) (U : Upper) 
   exists b', wrap text' w sep = Ok b' /\ b_lines b' = b_lines b.
 Proof. intros C K U. exact wrap_again. Qed.
 Print Assumptions C06_wrap_again.
+
+(* segmentation is subadditive: joining two texts never gives more clusters than the two have
+   together - every classifier, every pair of texts, nothing assumed about how they end or start.
+   (Joining can merge clusters across the seam and shift the pairing of regional indicators, but
+   never creates more boundaries than it removes: a simulation between the segmenter run in
+   context and run alone, with a potential of one pending boundary, checked over all pairs of
+   states and classes.) *)
+Theorem C06_clusters_subadditive : forall (C : Classifier) a b, glen (a ++ b) <= glen a + glen b.
+Proof. intros C. exact glen_app_le. Qed.
+Print Assumptions C06_clusters_subadditive.
+
+(* the width bound with no assumption at all: every text, width and separator *)
+Theorem C06_width_every_text : forall (C : Classifier) text w sep b,
+  wrap text w sep = Ok b -> Forall (fun l => glen l <= Z.max w 2) (b_lines b).
+Proof. intros C. exact wrap_width_all. Qed.
+Print Assumptions C06_width_every_text.
